@@ -449,6 +449,12 @@ impl FramedReader {
         }
     }
 
+    /// Discard a partially received frame, e.g. when a new connection is established
+    pub(crate) fn reset(&mut self) {
+        self.parser.reset();
+        self.buffer.clear();
+    }
+
     pub(crate) async fn next_frame(
         &mut self,
         io: &mut PhysLayer,
